@@ -109,18 +109,19 @@ static MessageRef GenPayload()
 // a path pattern as a list of clauses from the start node of the traversal (the global root for routing: implicit */* already added)
 struct Pat {
    std::vector<std::string> cl; std::vector<refwild::Pattern> parsed; std::string text; bool hasFilter; RF filter;
-   Pat() : hasFilter(false) {}
+   bool malformed;   // one clause does not compile (unbalanced ( or [, reversed class range ...): the whole pattern selects nothing; `parsed` is empty
+   Pat() : hasFilter(false), malformed(false) {}
    std::string Canon() const { std::string s; for (size_t i = 0; i < cl.size(); i++) { if (i) s += "/"; s += cl[i]; } return s; }
 };
 static std::string Join(const std::vector<std::string> & v, size_t from = 0) { std::string s; for (size_t i = from; i < v.size(); i++) { if (i > from) s += "/"; s += v[i]; } return s; }
 // clauses = what the client writes; relative => the implicit /*/* prefix is prepended (text has no leading slash)
-static Pat MakePat(const std::vector<std::string> & clauses, bool relative, bool rooted = false)
+static Pat MakePat(const std::vector<std::string> & clauses, bool relative, bool rooted = false, bool malformed = false)
 {
-   Pat p;
+   Pat p; p.malformed = malformed;
    if (rooted) { p.cl = clauses; p.text = Join(clauses); }
    else if (relative) { p.cl.push_back("*"); p.cl.push_back("*"); p.cl.insert(p.cl.end(), clauses.begin(), clauses.end()); p.text = Join(clauses); }
    else { p.cl = clauses; p.text = "/" + Join(clauses); }
-   for (size_t i = 0; i < p.cl.size(); i++) { refwild::Pattern rp; std::string why; if (!refwild::Parse(p.cl[i], rp, &why)) rb::Abort("generated clause [" + p.cl[i] + "] is outside the documented subset: " + why); p.parsed.push_back(rp); }
+   if (!malformed) for (size_t i = 0; i < p.cl.size(); i++) { refwild::Pattern rp; std::string why; if (!refwild::Parse(p.cl[i], rp, &why)) rb::Abort("generated clause [" + p.cl[i] + "] is outside the documented subset: " + why); p.parsed.push_back(rp); }
    return p;
 }
 static std::string EscLit(const std::string & s, bool atStart = true)
@@ -147,6 +148,22 @@ static bool IsLitOrList(const std::string & c)
    }
    return true;
 }
+
+// Clauses that are no well-formed wildcard expressions.  A pattern holding one selects nothing, and must not disturb the other patterns of
+// the same Message / default route / command.  The pool is what BOTH sides refuse: the reference parser (outside the documented syntax)
+// and StringMatcher::SetPattern() (regcomp error); a candidate that muscle compiles after all has undocumented pass-through-to-regex
+// semantics and is left out of the generator and counted (checked once at start-up by InitMalformedPool()).
+static std::vector<std::string> gMalformed;
+static void InitMalformedPool()
+{
+   static const char * cand[] = {"(", "a(", "(a|b", "[", "ba[", "[a", "[z-a]", "x[b-a]y", "((a)", "f[", "~(", "~[", "[a-", "*(", "?(", "a{2", "zz(|"};
+   for (size_t i = 0; i < sizeof(cand) / sizeof(cand[0]); i++) {
+      refwild::Pattern rp; if (refwild::Parse(cand[i], rp)) rb::Abort(std::string("malformed-clause candidate [") + cand[i] + "] is accepted by the reference parser");
+      StringMatcher sm; if (sm.SetPattern(cand[i]).IsError()) gMalformed.push_back(cand[i]); else vh::stat("unspecified_malformed_candidate_compiled_by_muscle");
+   }
+   if (gMalformed.size() < 8) rb::Abort("fewer than 8 clause texts are refused by StringMatcher::SetPattern()");
+}
+static const std::string & PickMalformed() { return gMalformed[R((uint32)gMalformed.size())]; }
 
 // one clause for a node name: a random documented form built around `t`
 static std::string NodeClauseForm(const std::string & t, bool litBias)
@@ -224,7 +241,7 @@ struct Tree { std::vector<TNode> nodes; };
 
 static bool PatMatchesPath(const Pat & p, const std::vector<std::string> & segs, size_t from = 0)
 {
-   if (p.cl.size() + from != segs.size()) return false;
+   if (p.malformed || p.cl.size() + from != segs.size()) return false;
    for (size_t i = 0; i < p.cl.size(); i++) if (!refwild::Match(p.parsed[i], segs[from + i])) return false;
    return true;
 }
@@ -472,7 +489,7 @@ struct World {
          if (m) sel[n.owner] = 1;
          else if (!pathOnly) {
             bool reach = true; const size_t d = n.segs.size();
-            for (size_t l = 0; l < d && reach; l++) { bool any = false; for (size_t i = 0; i < pats.size() && !any; i++) if ((l + 1 == d ? pats[i].cl.size() == d : pats[i].cl.size() > l + 1) && refwild::Match(pats[i].parsed[l], n.segs[l])) any = true; reach = any; }
+            for (size_t l = 0; l < d && reach; l++) { bool any = false; for (size_t i = 0; i < pats.size() && !any; i++) if (!pats[i].malformed && (l + 1 == d ? pats[i].cl.size() == d : pats[i].cl.size() > l + 1) && refwild::Match(pats[i].parsed[l], n.segs[l])) any = true; reach = any; }
             if (reach) consp[n.owner] = 1;
          }
       }
